@@ -103,6 +103,48 @@ def c17_rolling(xx, window, nodata, dtype="int16"):
     return {"violates": bool(bad), "out": out, "bad": bad}
 
 
+def c17_rolling_absorb(window, n):
+    """A window's result must not depend on cells that have left it: series in which one huge cell (int64 above 2**53, float32 1e17 /
+    1e30) passes through the window, followed by small cells and nodata cells; every complete window against the exact sum of its own
+    valid cells (tolerance: float32 rounding of the window's own magnitudes)."""
+    from fractions import Fraction as Fr
+    from hdc.algo.ops.stats import rolling_sum
+    bad = []
+    W = max(2, int(window))
+    L = max(int(n), 3 * W + 4)
+    nd = -9999
+    cases = []
+    for big, dtype in ((2 ** 60, "int64"), (2 ** 55 + 1, "int64"), (1e17, "float32"), (1e30, "float32"), (30000, "int16")):
+        for posn in (0, 1, W):
+            xs = [((7 * i) % 5) + 1 for i in range(L)]
+            xs[posn] = big
+            cases.append((xs, dtype))
+            ys = list(xs)
+            ys[posn + W + 1] = nd
+            cases.append((ys, dtype))
+    for xs, dtype in cases:
+        arr = np.array(xs, dtype=dtype)
+        try:
+            out = [float(v) for v in rolling_sum(arr, W, nd)]
+        except Exception as e:  # noqa
+            return {"violates": True, "raised": f"{type(e).__name__}: {e}"[:200]}
+        vals = [Fr(float(v)) if dtype == "float32" else Fr(int(v)) for v in arr]
+        for ii in range(W - 1, L):
+            win = vals[ii - W + 1: ii + 1]
+            raw = list(arr[ii - W + 1: ii + 1])
+            valid = [v for v, r in zip(win, raw) if r != nd]
+            if not valid:
+                continue
+            exact = sum(valid)
+            tol = Fr(W) * Fr(1, 2 ** 22) * sum(abs(v) for v in valid) + Fr(1, 1000)
+            okv = abs(Fr(out[ii]) - exact) <= tol
+            oknd = len(valid) < len(win) and out[ii] == float(np.float32(nd))
+            if not (okv or oknd):
+                bad.append({"dtype": dtype, "position": ii, "window": [float(v) for v in raw], "got": out[ii], "exact_sum": float(exact)})
+                break
+    return {"violates": bool(bad), "bad": bad[:4]}
+
+
 def c17_rolling_pair(vals, miss, window, nd1, nd2, dtype="int16"):
     from hdc.algo.ops.stats import rolling_sum
     x1 = np.array([nd1 if m else v for v, m in zip(vals, miss)], dtype=dtype)
